@@ -323,7 +323,7 @@ def cases(rng, tier):
     yield dict(kind="table", sub=rng.getrandbits(32))
     yield from refusal_cases(rng)
     # (the three candidate findings D21-D23 have one deterministic witness each in harness/corpus/C20, run first)
-    n = 1800 if tier == "quick" else 20000
+    n = 1800 if tier == "quick" else 7000
     for _ in range(n):
         yield gen_case(rng, tier)
 
